@@ -53,14 +53,16 @@ Print Assumptions C12_shift_top.
 
 (* Any two placements 1 <= o1 <= o2 are related by the shift o2 - o1. *)
 Theorem C12_shift_between :
-  forall (data : list N) (o1 o2 : N) (rules : list pexpr) (fuel : nat) (root : pexpr),
+  forall (data : list N) (cf : list N -> option N) (cd : list N -> option Z)
+    (o1 o2 : N) (rules : list pexpr) (fuel : nat) (root : pexpr),
   1 <= o1 ->
   o1 <= o2 ->
-  run {| i_data := data; i_offset := o2 |} rules fuel root =
-  shift_pout (o2 - o1) (run {| i_data := data; i_offset := o1 |} rules fuel root) /\
-  parse_top {| i_data := data; i_offset := o2 |} rules fuel root =
+  run {| i_data := data; i_offset := o2; i_cf := cf; i_cd := cd |} rules fuel root =
+  shift_pout (o2 - o1)
+    (run {| i_data := data; i_offset := o1; i_cf := cf; i_cd := cd |} rules fuel root) /\
+  parse_top {| i_data := data; i_offset := o2; i_cf := cf; i_cd := cd |} rules fuel root =
   shift_outcome (shift_top (o2 - o1))
-    (parse_top {| i_data := data; i_offset := o1 |} rules fuel root).
+    (parse_top {| i_data := data; i_offset := o1; i_cf := cf; i_cd := cd |} rules fuel root).
 Proof. exact @Shift.C12_shift_between. Qed.
 Print Assumptions C12_shift_between.
 
@@ -88,13 +90,19 @@ Print Assumptions C12_rendered_unchanged.
 (* THE PROPERTY: parse_top of the file behind arbitrary other files = the shift (by the difference of base offsets) of
    parse_top of the file alone: same trees with shifted positions, same error cause, same call count, identical error TEXT. *)
 Theorem C12_placement_invariant :
-  forall (pre : list file) (f : file) (rules : list pexpr) (fuel : nat) (root : pexpr),
+  forall (pre : list file) (f : file) (cf : list N -> option N) (cd : list N -> option Z)
+    (rules : list pexpr) (fuel : nat) (root : pexpr),
   let d := placement_shift pre f in
   let fs1 := new_fileset [f] in
   let fs2 := new_fileset (pre ++ [f]) in
-  let inp1 := {| i_data := f_data f; i_offset := 1 |} in
+  let inp1 := {| i_data := f_data f; i_offset := 1; i_cf := cf; i_cd := cd |} in
   let inp2 :=
-    {| i_data := f_data f; i_offset := offset_of (pre ++ [f]) (Datatypes.length pre) |} in
+    {|
+      i_data := f_data f;
+      i_offset := offset_of (pre ++ [f]) (Datatypes.length pre);
+      i_cf := cf;
+      i_cd := cd
+    |} in
   parse_top inp2 rules fuel root =
   shift_outcome (shift_top d) (parse_top inp1 rules fuel root) /\
   (forall (ns : list node) (c : ctx),
@@ -137,7 +145,7 @@ Print Assumptions C12_values_unchanged.
 
 (* Necessity of positions >= 1: at base offset 0 (only reachable through File.SetOffset(0)) SkipWhitespaces' nlPos == 0 sentinel breaks invariance. *)
 Theorem C12_offset0_refuted :
-  let inp := {| i_data := [10; 10; 97]; i_offset := 0 |} in
+  let inp := mk_input [10; 10; 97] 0 in
   let root := PLeftTrim WsSpaces (PTerm (TRune 97)) in
   run (shift_input 5 inp) [] 5 root <> shift_pout 5 (run inp [] 5 root).
 Proof. exact @Shift.C12_offset0_refuted. Qed.
